@@ -36,6 +36,10 @@ def run_prop(prop, tier):
             raise ToolError("%s produced only %d behaviours" % (cfg, n))
         total += n
         _replay_into(ck, prop, cf, os.path.join(wd, cfg), probe=True)
+        if prop in ("C14", "C19") and cfg == (gent if thorough else genq)[0]:
+            # the same behaviours under the optimised build profile (what the code does only inside a debug_assert! is gone there)
+            _replay_into(ck, prop, cf, os.path.join(wd, cfg + "_release"), probe=False, config="nightly-release")
+            total += n
     if prop == "C15":
         # blocks of 16 pages and more, and the same behaviours again in a process that pinned itself in RAM
         # (mlockall: every page locked whatever the library does) - only the wipe oracles are active there
